@@ -7,15 +7,18 @@ INFO = dict(
  functions=['fiber_cond_init', 'fiber_cond_wait', 'fiber_cond_signal', 'fiber_cond_broadcast', 'fiber_mutex_lock', 'fiber_mutex_unlock',
             'fiber_mutex_unlock_internal', 'fiber_manager_wait_in_mpsc_queue_and_unlock', 'fiber_manager_wake_from_mpsc_queue',
             'fiber_manager_do_maintenance'],
- stubs=['contract kernel (see C03)', 'abstract mutex: fiber_mutex_lock/trylock/unlock/unlock_internal are replaced by the contract that C03 establishes for them (atomic test-and-set, a blocked locker parks); fiber_cond.c itself and the atomic unlock-and-wait path through fiber_manager_wait_in_mpsc_queue_and_unlock / do_maintenance are the real code'],
+ stubs=['contract kernel (see C03)', 'E1 accounting step (e1/C05/cond_e1.c): every atomic operation of fiber_cond.c on waiter_count is preceded by an arbitrary number of announcements by other fibers (macro redirect of the stdatomic generics; the operation itself unchanged); fiber_mutex_lock/unlock record the holder; fiber_manager_wake_from_mpsc_queue and fiber_manager_wait_in_mpsc_queue_and_unlock record their arguments', 'abstract mutex: fiber_mutex_lock/trylock/unlock/unlock_internal are replaced by the contract that C03 establishes for them (atomic test-and-set, a blocked locker parks); fiber_cond.c itself and the atomic unlock-and-wait path through fiber_manager_wait_in_mpsc_queue_and_unlock / do_maintenance are the real code'],
  assumptions=['assume-guarantee: the runtime contract of C01/C02 holds for yield/schedule', 'x86-TSO mapping of atomics; -O1 IR of clang-14'],
- bounds='1-2 waiters, one signaller issuing 1-2 signals or one broadcast, with the mutex held or (predicate mode) after releasing it; counting mode (no predicate loop) and predicate mode; spin bound 1; all interleavings (SC)',
+ bounds='E1: one signal/broadcast/wait from any count of announced waiters < 2^28 with arbitrary concurrent announcements; E2: 1-2 waiters, one signaller issuing 1-2 signals or one broadcast, with the mutex held or (predicate mode) after releasing it; counting mode (no predicate loop) and predicate mode; spin bound 1; all interleavings (SC)',
  outside='more waiters/signals, re-waiting more than once, several condition variables on one mutex')
 
 
 def plan(tier, ctx):
     src = ['fiber_cond.c', 'fiber_mutex.c'] + fvm.KERNEL_SRCS
     j = []
+    for h in ('h_signal', 'h_broadcast', 'h_wait'):
+        j += pair('e1.cond.' + h, [VERIF + '/e1/C05/cond_e1.c'], h, unwind=3, timeout=300,
+                  meta={'engine': 'E1 cbmc-src', 'bounds': 'one operation; any count of announced waiters 0..2^28; arbitrary concurrent announcements before each atomic step'})
     j += fvm.config('C05', 'cond_1w_signal', 'cond.c', 2, 4, 'sc', srcs=src, defines=['NW=1', 'NSIG=1'], spec=fvm.kspec_amutex(2), bounds='1 waiter, 1 signal (counting)', timeout=1200)
     j += fvm.config('C05', 'cond_1w_pred', 'cond.c', 2, 4, 'sc', srcs=src, defines=['NW=1', 'NSIG=1', 'PREDICATE'], spec=fvm.kspec_amutex(2), bounds='1 waiter with predicate loop, 1 signal', timeout=1200)
     j += fvm.config('C05', 'cond_1w_bcast', 'cond.c', 2, 4, 'sc', srcs=src, defines=['NW=1', 'NSIG=1', 'BROADCAST'], spec=fvm.kspec_amutex(2), bounds='1 waiter, 1 broadcast', timeout=1200)
